@@ -145,8 +145,8 @@ pub struct Cfg {
     pub b_concurrency: Option<Option<usize>>,
     pub cli_retry: Option<usize>,
     pub b_retry: Option<usize>,
-    pub cli_retry_after_ms: Option<u64>,
-    pub b_retry_after_ms: Option<u64>,
+    pub cli_retry_after_us: Option<u64>,
+    pub b_retry_after_us: Option<u64>,
     pub cli_filter: Option<String>,
     pub b_filter: Option<String>,
     pub cli_ff: bool,
@@ -169,11 +169,15 @@ pub fn resumed_tag(tags: &[String]) -> Option<(usize, usize)> {
 }
 
 impl Cfg {
+    /// The effective limit; one that no run can reach (`usize::MAX` and the like) bounds nothing,
+    /// and is reported as none.
     pub fn limit(&self) -> Option<usize> {
-        self.cli_concurrency.or(match self.b_concurrency {
-            None => Some(64),
-            Some(x) => x,
-        })
+        self.cli_concurrency
+            .or(match self.b_concurrency {
+                None => Some(64),
+                Some(x) => x,
+            })
+            .filter(|k| *k < 1 << 30)
     }
     pub fn fail_fast(&self) -> bool {
         self.cli_ff || self.b_ff
@@ -261,7 +265,7 @@ impl Profile {
             p_ff: 15,
             p_gate: 60,
             p_cfg_retry: 25,
-            limits: &[Some(1), Some(2), Some(3), Some(64), None],
+            limits: &[Some(1), Some(2), Some(3), Some(64), Some(usize::MAX), None],
             p_empty: 10,
             p_custom_which: 8,
             p_resume: 6,
@@ -361,7 +365,7 @@ impl Profile {
                 p_delay: 2,
                 p_ff: 5,
                 p_parse_err: 3,
-                limits: &[Some(1), Some(2), Some(3), Some(5), Some(64), None],
+                limits: &[Some(1), Some(2), Some(3), Some(5), Some(64), Some(usize::MAX), None],
                 p_wide: 2,
                 ..g
             },
@@ -452,7 +456,7 @@ impl Profile {
                 p_gate: 85,
                 p_hook: 65,
                 p_logs: 70,
-                limits: &[Some(2), Some(3), Some(64), None],
+                limits: &[Some(2), Some(3), Some(64), Some(usize::MAX), None],
                 ..g
             },
             // small and quick (Miri)
@@ -477,7 +481,13 @@ impl Profile {
 
 // plain tags, and near-misses of the tags that mean something (exact matches only count)
 const PLAIN_TAGS: &[&str] = &["a", "b", "slow", "wip", "ab", "disallow.skipped", "allow.skipped.on.ci", "serially", "non-serial"];
-pub const DELAYS_MS: &[u64] = &[2, 5, 12];
+/// Retry delays, in microseconds (one of them below a millisecond).
+pub const DELAYS_US: &[u64] = &[900, 2_000, 5_000, 12_000];
+
+/// A delay as written in a tag.
+pub fn delay_text(us: u64) -> String {
+    if us % 1000 == 0 { format!("{}ms", us / 1000) } else { format!("{us}us") }
+}
 
 fn pct(r: &mut Rng, p: usize) -> bool {
     r.below(100) < p
@@ -578,12 +588,12 @@ impl Gen<'_> {
         if pct(&mut self.r, pr) {
             let n = if self.r.chance(1, 8) { 0 } else { self.r.range(1, 3) };
             let with_delay = pct(&mut self.r, self.p.p_delay);
-            let d = *self.r.pick(DELAYS_MS);
+            let d = delay_text(*self.r.pick(DELAYS_US));
             t.push(match (self.r.below(2), with_delay) {
                 (0, false) => "retry".to_owned(),
                 (_, false) => format!("retry({n})"),
-                (0, true) => format!("retry.after({d}ms)"),
-                (_, true) => format!("retry({n}).after({d}ms)"),
+                (0, true) => format!("retry.after({d})"),
+                (_, true) => format!("retry({n}).after({d})"),
             });
         }
         if self.r.chance(1, 12) {
@@ -719,11 +729,11 @@ pub fn generate(profile: &Profile, seed: u64, index: u64) -> CaseSpec {
     }
     if pct(&mut r, profile.p_delay) {
         match r.below(3) {
-            0 => cfg.cli_retry_after_ms = Some(*r.pick(DELAYS_MS)),
-            1 => cfg.b_retry_after_ms = Some(*r.pick(DELAYS_MS)),
+            0 => cfg.cli_retry_after_us = Some(*r.pick(DELAYS_US)),
+            1 => cfg.b_retry_after_us = Some(*r.pick(DELAYS_US)),
             _ => {
-                cfg.cli_retry_after_ms = Some(*r.pick(DELAYS_MS));
-                cfg.b_retry_after_ms = Some(*r.pick(DELAYS_MS));
+                cfg.cli_retry_after_us = Some(*r.pick(DELAYS_US));
+                cfg.b_retry_after_us = Some(*r.pick(DELAYS_US));
             }
         }
     }
@@ -801,7 +811,7 @@ pub fn generate(profile: &Profile, seed: u64, index: u64) -> CaseSpec {
     if profile.p_wide > 0 {
         let mut r5 = Rng::new(seed.wrapping_mul(0x51ED_270B).wrapping_add(index) ^ 0xA1DE);
         if pct(&mut r5, profile.p_wide) {
-            let n = r5.range(66, 90) as u32;
+            let n = r5.range(66, 100) as u32;
             let scenarios = (0..n)
                 .map(|i| {
                     let unit = format!("S:s{i}:0");
@@ -817,10 +827,16 @@ pub fn generate(profile: &Profile, seed: u64, index: u64) -> CaseSpec {
             items = vec![Item::Feat(FeatSpec { uid: 0, name: "feat f0".into(), tags: Vec::new(), bg: Vec::new(), scenarios, rules: Vec::new(), path: Some("/virt/f0.feature".into()) })];
             pend = vec![Vec::new(), Vec::new()];
             cfg = Cfg::default();
-            match r5.below(3) {
+            match r5.below(7) {
                 0 => cfg.b_concurrency = Some(None),
                 1 => {}
-                _ => cfg.cli_concurrency = Some(r5.range(2, 70)),
+                2 => cfg.cli_concurrency = Some(r5.range(2, 70)),
+                // limits above the default one
+                3 => cfg.b_concurrency = Some(Some(r5.range(65, 88))),
+                4 => cfg.cli_concurrency = Some(r5.range(65, 88)),
+                // ... and "as many as there are", spelled as a number
+                5 => cfg.b_concurrency = Some(Some(usize::MAX)),
+                _ => cfg.cli_concurrency = Some(usize::MAX),
             }
         }
     }
@@ -1017,6 +1033,6 @@ impl CaseSpec {
     }
 }
 
-pub fn dur(ms: Option<u64>) -> Option<Duration> {
-    ms.map(Duration::from_millis)
+pub fn dur(us: Option<u64>) -> Option<Duration> {
+    us.map(Duration::from_micros)
 }
